@@ -174,6 +174,19 @@ def functions_under_contract(ov, r):
     return res
 
 
+def scan_unsafe():
+    """text scan of the repository's sources for `unsafe` (outside comments)"""
+    hits = []
+    src = os.path.join(engine.REPO, "src")
+    for root, _, files in os.walk(src):
+        for f in files:
+            if f.endswith(".rs"):
+                t = re.sub(r"//[^\n]*", "", open(os.path.join(root, f), encoding="utf-8", errors="replace").read())
+                if re.search(r"\bunsafe\b", t):
+                    hits.append(os.path.relpath(os.path.join(root, f), src))
+    return hits
+
+
 def scan_assumptions(ov):
     """mechanical scan of everything Verus sees for unchecked assumptions"""
     found = []
@@ -449,6 +462,7 @@ def write_evidence(path, pid, tier, seed, ov, r, failures, units, t0, notes, und
         "source_sha256": {("src/" + rel): engine.sha(fo.src) for rel, fo in (ov.files.items() if ov else [])},
         "fidelity": "for every annotated file, removing the inserted spans and undoing the listed E2 rewrites reproduced the original file byte for byte (asserted on this run)",
         "lost_hints": ov.lost if ov else [],
+        "unsafe_in_repo_sources": scan_unsafe(),
         "failed_obligations": [f.to_json() for f in failures][:20],
         "undecided": undecided,
         "claim": P.get("claim", ""),
